@@ -15,7 +15,15 @@ import (
 	"bklverif/tv"
 )
 
-const Verif = "/verif"
+// Verif is the home of the machinery: /verif, or the copy bin/check was started from
+var Verif = home()
+
+func home() string {
+	if h := os.Getenv("BKLV_HOME"); h != "" {
+		return h
+	}
+	return "/verif"
+}
 
 // Run is the context of one check invocation.
 type Run struct {
